@@ -2,7 +2,7 @@
    That k256 and libsecp256k1 implement the same curve equation / point validity is a fact about two
    foreign libraries: sampled in the correspondence run, not proved. *)
 Require Import Enr.Bytes Enr.Consts Enr.Rlp Enr.SortedMap Enr.Keccak Enr.Record.
-Require Import EnrProofs.Thm_Misc.
+Require Import EnrProofs.Thm_Misc EnrProofs.Thm_Backends.
 Open Scope N_scope.
 
 (* the crate adds no back-end specific behaviour: given the same crypto cores, the two secp256k1 types decode identically *)
@@ -41,3 +41,27 @@ Theorem combined_precedence : forall (c : crypto) b r rest p,
   verify_v4 c p (signed_payload r) (sig r) = true /\ nid r = node_id_of p.
 Proof. exact Thm_Misc.combined_precedence. Qed.
 Print Assumptions combined_precedence.
+
+(* CombinedKey accepts exactly what the secp256k1 types accept (records whose secp256k1 entry is a valid
+   key) plus what the ed25519 type accepts (the others), and reports the same record *)
+Theorem decode_comb_of_k256 : forall (c : crypto) b x, decode c K256 b = Ok x -> decode c Comb b = Ok x.
+Proof. exact Thm_Backends.decode_comb_of_k256. Qed.
+Print Assumptions decode_comb_of_k256.
+
+Theorem decode_comb_of_ed : forall (c : crypto) b r rest,
+  decode c Ed b = Ok (r, rest) -> (forall p, secp_to_public c (content r) <> Ok p) ->
+  decode c Comb b = Ok (r, rest).
+Proof. exact Thm_Backends.decode_comb_of_ed. Qed.
+Print Assumptions decode_comb_of_ed.
+
+Theorem decode_comb_split : forall (c : crypto) b r rest,
+  decode c Comb b = Ok (r, rest) ->
+  (exists p, secp_to_public c (content r) = Ok p /\ decode c K256 b = Ok (r, rest) /\ decode c LibSecp b = Ok (r, rest)) \/
+  ((forall p, secp_to_public c (content r) <> Ok p) /\ decode c Ed b = Ok (r, rest)).
+Proof. exact Thm_Backends.decode_comb_split. Qed.
+Print Assumptions decode_comb_split.
+
+(* the decoder depends on the key type only through enr_to_public at the parsed pairs *)
+Theorem decode_split : forall (c : crypto) kt b, decode c kt b = (do x <- parse_pairs b; finish_decode c kt x).
+Proof. exact Thm_Backends.decode_split. Qed.
+Print Assumptions decode_split.
